@@ -84,7 +84,7 @@ def unescape_tla(s):
 
 
 def run_tlc(pid, name, module, cfg, workers=8, timeout=1800, env=None, simulate=None, coverage=False,
-            heap="8g", depth_first=False, case_file=None, expect_violation=False):
+            heap="8g", depth_first=False, case_file=None, expect_violation=False, depth=None):
     """Runs TLC; returns dict(states, distinct, out_path, cases, violated (invariant name or None), rc).
     CASE lines printed by the spec (PrintT(<<"CASE", json>>)) are written to case_file."""
     wd = workdir(pid)
@@ -100,6 +100,8 @@ def run_tlc(pid, name, module, cfg, workers=8, timeout=1800, env=None, simulate=
         cmd += ["-coverage", "1"]
     if simulate:
         cmd += ["-simulate", simulate]
+        if depth:
+            cmd += ["-depth", str(depth)]
     cmd.append(module)
     e = dict(os.environ)
     e.pop("JAVA_TOOL_OPTIONS", None)
@@ -165,7 +167,7 @@ def coverage_zero_actions(out_path, actions):
 
 
 def mc(pid, name, module, constants, invariants, constraint=None, workers=8, timeout=1800, spec="Spec",
-       properties=(), case_file=None, coverage_actions=None, view=None, heap="8g"):
+       properties=(), case_file=None, coverage_actions=None, view=None, heap="8g", simulate=None, depth=None):
     """Model-check step (M, optionally G through CASE printing).  A violated invariant of the
     *design* is a tool-level failure of the specification, reported as ToolError: the design
     configuration is expected to satisfy its properties (the code is judged by traces)."""
@@ -174,7 +176,7 @@ def mc(pid, name, module, constants, invariants, constraint=None, workers=8, tim
     write_cfg(cfg, spec=spec, constants=constants, invariants=invariants, constraint=constraint,
               properties=properties, view=view)
     r = run_tlc(pid, name, os.path.join(SPEC, module), cfg, workers=workers, timeout=timeout,
-                coverage=bool(coverage_actions), case_file=case_file, heap=heap)
+                coverage=bool(coverage_actions), case_file=case_file, heap=heap, simulate=simulate, depth=depth)
     if r["violated"]:
         raise ToolError("design model %s violates %s (see %s)" % (module, r["violated"], r["out_path"]))
     if r["errors"]:
